@@ -71,20 +71,58 @@ def run(cfg):
     lib = cxx.load_lib(cfg)
     R.analysed['translation_units'] = ['tu/lib.cpp']
     R.analysed['python_modules'] = ['tools/tzdb/transformer.py', 'tools/zonedb/zone_specifier.py']
-    R.rule('R1', 'calcStartDayOfMonth (C++) and calc_day_of_month (Python) agree on every path', floor=3)
+    R.rule('R1', 'calc_day_of_month (Python) equals the calendar on every expression of the sampled years (as R5 shows for the C++ resolver); both callers pass (year, month, weekday, day)', floor=3)
     R.rule('R2', 'every day-of-month that can resolve into another year is rejected by the transformer', floor=2)
     R.rule('R3', 'no shipped rule uses a year-spilling (month, day-of-month) combination', floor=1300)
-    f, sc, g, sp = summaries(cfg, lib)
+    import datetime
+    from .pyeval import PyEval, PObj, Raised as PRaised
+    f = lib.fn(CXX_FN)
+    trm = py.load(cfg, 'tools/tzdb/transformer.py')
+    g = trm.fn('calc_day_of_month')
     c = 'calcStartDayOfMonth~calc_day_of_month'
-    n, diffs = compare_summaries(sc, sp, project=lambda p: (p[1], result_pair(p[2])))
-    R.instance('R1', c, f.loc, '%d orderings of the compared terms, %d/%d paths' % (n, len(sc.paths), len(sp.paths)))
-    R.analysed['orderings_compared'] = n
-    if n < 8:
-        raise AnalysisError('%s: only %d orderings compared (summaries degenerate)' % (f.loc, n))
-    if diffs:
-        d = diffs[0]
-        R.violation('R1', c, f.loc, 'the two implementations differ when %s: C++ gives %s, Python gives %s' %
-                    (d[0], _show_outcome(d[1]), _show_outcome(d[2])), detail=['%d differing orderings' % len(diffs)])
+
+    def resolve(y, mth, dow, dom):
+        """the calendar's answer for "weekday dow on or after / on or before day |dom| of the month" (dom == 0: the last one)"""
+        if dom == 0:
+            dt = datetime.date(y + (mth == 12), mth % 12 + 1, 1) - datetime.timedelta(days=1)
+            while dt.isoweekday() != dow:
+                dt -= datetime.timedelta(days=1)
+            return dt
+        dt = datetime.date(y, mth, abs(dom))
+        step = datetime.timedelta(days=1 if dom > 0 else -1)
+        while dt.isoweekday() != dow:
+            dt += step
+        return dt
+    # the Python resolver, interpreted (E-SEQ over its ast) on every (month, weekday, day) expression of the sampled years,
+    # against the calendar; the C++ resolver is held to the same calendar by R5, so the two agree wherever both are defined
+    pev = PyEval(cfg, max_steps=4000000)
+    yearsp = [2000, 2019] if cfg.tier != 'thorough' else [1873, 1900, 1999, 2000, 2001, 2004, 2100, 2126]
+    n1, bad1 = 0, None
+    for y in yearsp:
+        for mth in range(1, 13):
+            for dow in range(1, 8):
+                for dom in range(-31, 32):
+                    try:
+                        dt = resolve(y, mth, dow, dom)
+                    except ValueError:
+                        continue          # day |dom| does not exist in that month
+                    want = (0 if dt.year < y else 13 if dt.year > y else dt.month, dt.day)
+                    try:
+                        got = pev.call(trm, 'calc_day_of_month', [y, mth, dow, dom])
+                    except PRaised as x_:
+                        got = 'raises %s' % x_.what
+                    n1 += 1
+                    if (tuple(got) if isinstance(got, (tuple, list)) else got) != want and bad1 is None:
+                        bad1 = 'calc_day_of_month(%d, %d, %d, %d) is %s, the calendar gives %s (month 0 / 13: the neighbouring year)' % (y, mth, dow, dom, got, want)
+    for dom in (1, 15, 31):
+        got = pev.call(trm, 'calc_day_of_month', [2000, 3, 0, dom])
+        n1 += 1
+        if tuple(got) != (3, dom) and bad1 is None:
+            bad1 = 'calc_day_of_month(2000, 3, 0, %d) is %s: an exact day of the month (weekday 0) is not kept' % (dom, got)
+    R.instance('R1', c, g.loc, '%d expressions interpreted against the calendar' % n1)
+    R.analysed['expressions_interpreted'] = n1
+    if bad1:
+        R.violation('R1', c, g.loc, 'the two implementations differ: the C++ resolver follows the calendar (R5), the Python one does not: ' + bad1)
     # callers pass the four rule fields in the same order
     # (the arguments are compared as canonical terms of the path summary: locals, the order of a sum and the way the
     # result is stored do not matter)
@@ -132,59 +170,42 @@ def run(cfg):
     R.instance('R1', 'zonedb.zone_specifier._get_transition_time', pg.loc)
     if not (okp and seen_call):
         R.violation('R1', 'zonedb.zone_specifier._get_transition_time', pg.loc, 'does not call calc_day_of_month(year, rule.inMonth, rule.onDayOfWeek, rule.onDayOfMonth)')
-    # ---- R2 spill sets from the C++ summary
-    M = Poly.atom(('sym', 'M'))
-    prev_paths = [p for p in sc.paths if p[1] == 'return' and _P(result_pair(p[2])[0]) == M - Poly.const(1)]
-    next_paths = [p for p in sc.paths if p[1] == 'return' and _P(result_pair(p[2])[0]) == M + Poly.const(1)]
-    if not prev_paths or not next_paths:
-        raise AnalysisError('%s: the summary has no previous-month / next-month path' % f.loc)
-
-    def feasible(paths, month, dom, dim):
-        """exists weekday shift in 0..6 such that some path guard holds."""
-        for shift in range(7):
-            def assign(a):
-                if a == ('sym', 'D'):
-                    return dom
-                if a == ('sym', 'M'):
-                    return month
-                if a == ('sym', 'W'):
-                    return 1      # any non-zero weekday
-                if a[0] == 'mod':
-                    return shift
-                if a[0] == 'fn' and a[1] == 'DIM':
-                    return dim
-                raise KeyError(a)
-            for gd, kind, res, eff in paths:
-                try:
-                    if eval_formula(gd, assign):
-                        return True
-                except KeyError as e:
-                    raise AnalysisError('%s: the spill guard depends on an unexpected term %r' % (f.loc, e.args[0]))
-        return False
-    spill_prev = {d for d in range(-31, 32) if d != 0 and feasible(prev_paths, 1, d, 31)}
-    spill_next = {d for d in range(-31, 32) if feasible(next_paths, 12, d, 31)}
+    # ---- R2 spill sets from the calendar: day values for which some weekday of some year resolves into the neighbouring year
+    spill_prev, spill_next = set(), set()
+    for y in (1999, 2000, 2001, 2004):
+        for dow in range(1, 8):
+            for dom in range(-31, 32):
+                if dom == 0:
+                    continue
+                if resolve(y, 1, dow, dom).year < y:
+                    spill_prev.add(dom)
+                if resolve(y, 12, dow, dom).year > y:
+                    spill_next.add(dom)
     R.analysed['spill_prev_year(dom in January)'] = sorted(spill_prev)
     R.analysed['spill_next_year(dom in December)'] = sorted(spill_next)
     tr = py.load(cfg, 'tools/tzdb/transformer.py')
     tf = tr.fn('Transformer._create_rules_with_on_day_expansion')
     # which (month, weekday, day-of-month) combinations the transformer refuses is read off by interpreting the function
-    # (E-SEQ) on one-rule policies; the parser of the ON field is abstracted to the pair it returns, reporting is dropped
-    from .aeval import AEval, AObj, Raised
+    # (E-SEQ over the Python ast, the ON field parsed by the real parser) on one-rule policies
+    from .genrender import rule as mkrule
     rej = {1: set(), 12: set()}
-    intr = {'_parse_on_day_string': lambda ev, recv, args: args[0], '_add_reason': lambda ev, recv, args: None,
-            'logging.info': lambda ev, recv, args: None, 'info': lambda ev, recv, args: None, '_print_removed_map': lambda ev, recv, args: None,
-            '_merge_reasons': lambda ev, recv, args: None}
     try:
         for month in (1, 12):
             for dom in range(-31, 32):
-                rule = {'onDay': (1, dom), 'inMonth': month}
-                me = AObj({'all_removed_policies': {}}, oid='self', cls='Transformer')
-                out = AEval(module=tr, intrinsics=intr).call_function('Transformer._create_rules_with_on_day_expansion', [{'P': [rule]}], recv=me)
+                r_ = mkrule(2000, 9999, month, 0, 0, 7200, 0, 'S', 'Rule P raw')
+                r_['onDay'] = 'lastMon' if dom == 0 else ('Mon>=%d' % dom if dom > 0 else 'Mon<=%d' % -dom)
+                del r_['onDayOfWeek'], r_['onDayOfMonth']
+                me = PObj(tr, 'Transformer', {'all_removed_policies': {}, 'all_removed_zones': {}, 'all_notable_policies': {}, 'scope': 'extended',
+                                              'start_year': 2000, 'until_year': 2050})
+                out = pev.call(tr, 'Transformer._create_rules_with_on_day_expansion', [{'P': [r_]}], recv=me)
                 if not isinstance(out, dict):
                     raise AnalysisError('%s: the function does not return the map of accepted policies' % tf.loc)
                 if 'P' not in out:
                     rej[month].add(dom)
-    except Raised as r_:
+                elif (out['P'][0].get('onDayOfWeek'), out['P'][0].get('onDayOfMonth')) != (0 if False else 1, dom):
+                    raise AnalysisError('%s: ON %s is stored as (weekday %r, day %r), expected (1, %d)' % (
+                        tf.loc, r_['onDay'], out['P'][0].get('onDayOfWeek'), out['P'][0].get('onDayOfMonth'), dom))
+    except PRaised as r_:
         raise AnalysisError('%s: interpretation raised %s' % (tf.loc, r_.what))
     R.analysed['rejected(dom in January)'] = sorted(rej[1])
     R.analysed['rejected(dom in December)'] = sorted(rej[12])
